@@ -43,6 +43,11 @@ type scenario struct {
 	Arrivals  []arrival
 	// LessPre: explore this (larger) scenario with one preemption less than the others
 	LessPre bool
+	// OldWindow / OldCfg (plugin scenarios): the arrivals named in OldCfg come with the
+	// remedy configured with window OldWindow; the others with the same remedy (same name)
+	// re-configured to window W, as after a policy reload in between
+	OldWindow time.Duration
+	OldCfg    []string
 }
 
 type reqState struct {
@@ -228,6 +233,7 @@ func final(x *mc.Exec, sc scenario) (string, string) {
 // ---- plugin level ------------------------------------------------------------------
 
 type pluginReq struct {
+	old      bool // came with the remedy's earlier configuration (window OldWindow)
 	a        arrival
 	startAt  time.Duration
 	returned bool
@@ -258,10 +264,23 @@ func buildPlugin(sc scenario) *mc.SchedOpts {
 				AllowedRequestCount: sc.Quota, WindowSizeInSeconds: int(W / time.Second), ResponseStatusCode: 429,
 				TTLSeconds: float32(sc.TTL.Seconds()), QueueSize: sc.QueueSize,
 				Prioritization: &sharedConfig.GroupPrioritization{GroupBy: sharedConfig.GroupBy{HeaderName: "x-prio"}, Groups: groups}}}}
+			remedyOld := remedy
+			if sc.OldWindow > 0 {
+				c := *remedy.Config.StrategyBasedQueue
+				c.WindowSizeInSeconds = int(sc.OldWindow / time.Second)
+				remedyOld = &sharedConfig.Remedy{Enabled: true, Name: "q", Config: sharedConfig.RemedyConfig{StrategyBasedQueue: &c}}
+			}
 			var reqs []*pluginReq
 			for i := range sc.Arrivals {
 				pr := &pluginReq{a: sc.Arrivals[i]}
 				reqs = append(reqs, pr)
+				remedy := remedy
+				for _, n := range sc.OldCfg {
+					if n == pr.a.Name {
+						remedy = remedyOld
+						pr.old = true
+					}
+				}
 				x.Go(pr.a.Name, func() {
 					if pr.a.Delay > 0 {
 						time.Sleep(pr.a.Delay)
@@ -303,8 +322,40 @@ func buildPlugin(sc scenario) *mc.SchedOpts {
 					}
 				}
 			}
+			// left to expire: a request that waited its whole TTL although an aligned window began
+			// during its wait in which nobody was admitted.  Judged by time only in executions in
+			// which virtual time advanced only when every goroutine was blocked (then the
+			// roll-over due at a boundary has run before time moves on).
+			if x.EarlyTs() == 0 {
+				for _, pr := range reqs {
+					if pr.admitted || pr.returnAt-pr.startAt < sc.TTL {
+						continue
+					}
+					for w := int64(pr.startAt/W) + 1; time.Duration(w)*W <= pr.startAt+sc.TTL-W/2; w++ {
+						busy := false
+						for _, a := range adm {
+							if int64(a.startAt/W) <= w && w <= int64(a.returnAt/W) {
+								busy = true
+							}
+						}
+						if !busy {
+							return "LEFT-TO-EXPIRE", fmt.Sprintf("%s waited from %v until its TTL (%v) ended although the aligned window starting at %v began during its wait and nobody was admitted in it", pr.a.Name, pr.startAt, sc.TTL, time.Duration(w)*W)
+						}
+					}
+				}
+			}
 			// is there an assignment of admitted requests to aligned windows inside [start, return]
 			// with at most Quota per window?
+			// (requests that came with the earlier configuration are not counted against the
+			// windows of the new one: the bound is asserted on the requests handled since the
+			// change)
+			var cur []*pluginReq
+			for _, a := range adm {
+				if !a.old {
+					cur = append(cur, a)
+				}
+			}
+			adm = cur
 			var rec func(i int, used map[int64]int64) bool
 			rec = func(i int, used map[int64]int64) bool {
 				if i == len(adm) {
@@ -344,6 +395,10 @@ var scenarios = []scenario{
 	{Name: "ttl-expiry-coincides-with-rollover", Quota: 1, QueueSize: 1, TTL: W, Arrivals: []arrival{{"A", 1, 0, 0}, {"B", 1, 0, 0}, {"C", 1, W + time.Millisecond, 0}}},
 	{Plugin: true, Name: "plugin-two-first-requests", Quota: 1, QueueSize: 2, TTL: 2 * W, Arrivals: []arrival{{"A", 1, 0, 0}, {"B", 1, 0, 0}}},
 	{Plugin: true, Name: "plugin-three-priorities", Quota: 1, QueueSize: 1, TTL: 2 * W, Arrivals: []arrival{{"A", 1, 0, 0}, {"lo", 2, time.Millisecond, 0}, {"hi", 0, 2 * time.Millisecond, 0}}},
+	// the remedy is re-configured from a 4 s window to a 1 s window between the first request
+	// and the next two: the waiter must be released when the next 1 s window starts
+	{Plugin: true, Name: "plugin-window-shrinks-between-requests", Quota: 1, QueueSize: 2, TTL: 2 * W, OldWindow: 4 * W, OldCfg: []string{"P"},
+		Arrivals: []arrival{{"P", 1, 0, 0}, {"A", 1, W / 2, 0}, {"B", 1, W/2 + time.Millisecond, 0}}},
 	{Name: "three-priorities-q1-size2", Quota: 1, QueueSize: 2, TTL: 7 * W / 2, Arrivals: []arrival{{"A", 1, 0, 0}, {"lo", 2, time.Millisecond, 0}, {"hi", 0, 2 * time.Millisecond, 0}}},
 }
 
